@@ -41,6 +41,7 @@ struct ConvSpec {
     int cat;         // Cat
     bool canary;     // deliberately wrong oracle (must be reported)
     bool all32;      // exhaustive over 2^32 (thorough)
+    unsigned slice, nslices;   // with all32: this instance record sweeps slice k of n equal parts of the 2^32 values (0 = whole range)
 };
 
 template <class T, class Src, class Dst, bool Permit>
@@ -198,6 +199,11 @@ struct IntConv {
         if (sizeof(T) <= 2 || (sizeof(T) == 4 && sp.all32 && g_args.thorough)) {
             exhaustive = true;
             W lo = minT, hi = maxT;
+            if (sizeof(T) == 4 && sp.nslices > 1) {   // a balanced part of the sweep: the other parts run in the other shard processes
+                const W part = (W(1) << 32) / W(sp.nslices);
+                lo = minT + part * W(sp.slice);
+                if (sp.slice + 1 < sp.nslices) hi = lo + part - 1;
+            }
             for (W v = lo; v <= hi; ++v) { check(T(v)); if (failed && failed3) break; if (failed && sp.canary) break; }
         } else {
             // boundary-complete neighbourhoods first (enumerated), then rapidcheck draws
